@@ -203,6 +203,74 @@ func Fixed() []*Grammar {
 			P("V", Al(none, "num"), Al(Call(A(1)), `"<"`, "V", `">"`), Al(Call(), `"~"`)),
 		}})
 
+	// namesclash: productions whose names look like the $-forms (T1, Context, E1)
+	add(&Grammar{ID: "namesclash", Tight: true, Seps: wsSeps,
+		Lex: append(letters(),
+			LexDef{Kind: LexToken, Name: "num", Pattern: `_digit {_digit}`, Samples: []string{"1", "22", "305"}},
+			LexDef{Kind: LexToken, Name: "word", Pattern: `_letter {_letter}`, Samples: []string{"a", "bc", "xyz"}},
+			ws()),
+		Prods: []*Prod{
+			P("Stmts", Al(Call(A(0)), "Stmt"), Al(Call(A(0), A(1)), "Stmts", "Stmt")),
+			P("Stmt", Al(CallCtx(A(0), A(2), T(1)), "Context", `"=>"`, "E1", `";"`), Al(Call(A(0)), "E1", `";"`)),
+			P("Context", Al(Call(T(1)), `"["`, "word", `"]"`)),
+			P("E1", Al(Call(A(0), T(1), A(2)), "E1", `"+"`, "T1"), Al(none, "T1")),
+			P("T1", Al(Call(A(0), T(1), A(2)), "T1", `"*"`, "T0"), Al(CallCtx(A(0)), "T0")),
+			P("T0", Al(Call(T(0)), "num"), Al(Pass(1), `"("`, "E1", `")"`)),
+		}})
+
+	// indirectnull: a prefix that is nullable only through other nonterminals, followed
+	// by a nonterminal whose FIRST set is reached through a chain of unit productions
+	add(&Grammar{ID: "indirectnull", Seps: wsSeps,
+		Lex: append(letters(),
+			LexDef{Kind: LexToken, Name: "id", Pattern: `_letter {_letter | _digit}`, Samples: []string{"a", "b1", "xyz"}},
+			ws()),
+		Prods: []*Prod{
+			P("Unit", Al(Call(A(0)), "Decl"), Al(Call(A(0), A(1)), "Unit", "Decl")),
+			P("Decl", Al(Call(A(0), A(1), T(2)), "Modifiers", "Type", "id", `";"`)),
+			P("Modifiers", Al(Call(A(0), A(1)), "Visibility", "Storage")),
+			P("Visibility", Al(Call(), `"pub"`), Al(none)),
+			P("Storage", Al(Call(), `"static"`), Al(Call())),
+			P("Type", Al(none, "NamedType"), Al(Call(), `"int"`), Al(Call(A(1)), `"["`, "Type", `"]"`)),
+			P("NamedType", Al(Call(A(0)), "QualifiedName")),
+			P("QualifiedName", Al(Call(T(0)), "id"), Al(Call(A(0), T(2)), "QualifiedName", `"."`, "id")),
+		}})
+
+	// dupalt: the same body twice in one production (a copy/paste slip that differs
+	// only in its action); gocc accepts it; which alternative reduces must not vary
+	add(&Grammar{ID: "dupalt", Ambiguous: true, GoccOnly: true, Flags: []string{"-a"}, Seps: wsSeps,
+		Lex: append(letters(),
+			LexDef{Kind: LexToken, Name: "num", Pattern: `_digit {_digit}`, Samples: []string{"1", "22"}},
+			LexDef{Kind: LexToken, Name: "word", Pattern: `_letter {_letter}`, Samples: []string{"a", "bc"}},
+			ws()),
+		Prods: []*Prod{
+			P("List", Al(Call(A(0)), "Value"), Al(Call(A(0), A(2)), "List", `","`, "Value")),
+			P("Value", Al(Call(T(0)), "num"), Al(Call(T(0)), "word"), Al(CallCtx(T(0)), "num"), Al(Call(A(1)), `"("`, "List", `")"`), Al(Call(T(0), T(0)), "word")),
+		}})
+
+	// scripts: ten tokens over ten non-ASCII ranges: the lexer's start state has many wide ranges
+	{
+		type sc struct {
+			name, lo, hi string
+			samples      []string
+		}
+		scs := []sc{
+			{"greek", "α", "ω", []string{"αβγ", "λογος"}}, {"cyril", "а", "я", []string{"да", "привет"}}, {"hebrew", "א", "ת", []string{"שלום", "אב"}},
+			{"arabic", "ء", "ي", []string{"سلام", "نور"}}, {"devan", "अ", "ह", []string{"नमन", "कमल"}}, {"thai", "ก", "ฮ", []string{"กขค", "งนม"}},
+			{"hira", "ぁ", "ん", []string{"ありがとう", "ねこ"}}, {"kata", "ァ", "ン", []string{"カタカナ", "ネコ"}}, {"han", "一", "鿿", []string{"中文", "世界"}},
+			{"hangul", "가", "힣", []string{"한글", "세계"}}, {"armen", "ա", "ֆ", []string{"բարեվ", "հայ"}},
+		}
+		var lex []LexDef
+		var alts []*Alt
+		for _, x := range scs {
+			lex = append(lex, LexDef{Kind: LexToken, Name: x.name, Pattern: "'" + x.lo + "'-'" + x.hi + "' {'" + x.lo + "'-'" + x.hi + "'}", Samples: x.samples})
+			alts = append(alts, &Alt{Syms: []Sym{{Kind: Tok, Name: x.name}}, Action: Call(T(0))})
+		}
+		lex = append(lex, LexDef{Kind: LexToken, Name: "latin", Pattern: `'a'-'z' {'a'-'z'}`, Samples: []string{"a", "word"}}, ws())
+		alts = append(alts, &Alt{Syms: []Sym{{Kind: Tok, Name: "latin"}}, Action: Call(T(0))})
+		add(&Grammar{ID: "scripts", Seps: wsSeps, Lex: lex,
+			Prods: []*Prod{P("Text", Al(Call(A(0)), "Word"), Al(Call(A(0), A(1)), "Text", "Word")), {Head: "Word", Alts: alts}}})
+	}
+
 	// splitrules: nonterminals defined by several rules with other rules in between
 	add(&Grammar{ID: "splitrules", Seps: wsSeps,
 		Lex: append(letters(),
